@@ -74,6 +74,27 @@ Theorem C14_history_independent_no_file : forall pf s runs k es, NoDup (names s)
   nth_error (run_seq pf s None runs) k = Some (effective pf s (fun _ => None) es).
 Proof. exact history_nofile_lemma. Qed.
 
+(* the batch LINE as text (src/hermes2go/hermes_main.go: strings.Fields): whatever runs of white space (blanks,
+   tabs, CR, ...) separate and surround the arguments, the tokens are exactly the arguments *)
+Theorem C14_fields_any_whitespace : forall lead pairs, all_ws lead = true ->
+  Forall tok_ok (map fst pairs) -> seps_ok pairs ->
+  fields (lead ++ render pairs) = map fst pairs.
+Proof. exact fields_render_lemma. Qed.
+
+(* the Run glue: the map readConfig receives is the parsed line — reading the crop overrides (CropFile=, c_...=)
+   from it consumes nothing, so every theorem above applies to [line_config] with tokens = fields line, also for keys
+   that share a prefix with the crop-override arguments (CropFileFormat, CropParameterFormat) *)
+Theorem C14_crop_parsing_keeps_arguments : forall line, glue_args line = arg_map (fields line).
+Proof. exact glue_args_lemma. Qed.
+
+(* order independence stated on the line text: same arguments (distinct keys), any order, any white space *)
+Theorem C14_line_order_independent : forall pf s f lead lead' pairs pairs',
+  all_ws lead = true -> all_ws lead' = true ->
+  Forall tok_ok (map fst pairs) -> Forall tok_ok (map fst pairs') -> seps_ok pairs -> seps_ok pairs' ->
+  NoDup (map fst (kvs (map fst pairs))) -> Permutation (map fst pairs) (map fst pairs') ->
+  line_config pf s f (lead ++ render pairs) = line_config pf s f (lead' ++ render pairs').
+Proof. exact line_order_lemma. Qed.
+
 (* non-vacuity: a three-key schema; line "B=7 zz=1 A=2.5 B=8 C=maybe D"; file gives A and C *)
 Example C14_nonvacuous :
   let pf := fun s => if s =? "2.5" then Some 4612811918334230528%Z else None in
@@ -93,5 +114,8 @@ Print Assumptions C14_order_independent.
 Print Assumptions C14_token_order_independent.
 Print Assumptions C14_depends_on_last_values_only.
 Print Assumptions C14_fixups_touch_three_keys.
+Print Assumptions C14_fields_any_whitespace.
+Print Assumptions C14_crop_parsing_keeps_arguments.
+Print Assumptions C14_line_order_independent.
 Print Assumptions C14_history_independent.
 Print Assumptions C14_history_independent_no_file.
